@@ -71,8 +71,11 @@ CHECKS = {
         "with <=2 deviations: clash probes, omitted/extra atoms, water "
         "lattice, partner poses, backbone gaps, rebuilt-atom clashes, "
         "hydrogen / backbone omissions, asymmetric acids, neutral termini, "
-        "ideal-slot partner pairs, the torsion alphabet, alias names), "
-        "chain layouts, real 3-residue windows + strands through the real pipeline with "
+        "ideal-slot partner pairs, the torsion alphabet, alias names, "
+        "waters with input hydrogens, sibling-hydrogen groups in both record "
+        "orders), chain layouts, real 3-residue windows and the spatial "
+        "neighbourhood of every residue of the bundled structures (1469 "
+        "hoods) + strands through the real pipeline with "
         "monitors on every Optimize method; the observed automaton of "
         "temporary-atom bookkeeping is reported as states/transitions; "
         "invariants: input heavy atoms conserved unless a deletion warning "
@@ -93,7 +96,9 @@ CHECKS = {
         "and every torsion call audited against the independently parsed "
         "bond graph (moved set = atoms beyond the bond, pure rotation); "
         "environments include several clash probes per residue (further "
-        "torsions), rebuilt-atom clashes under --nodebump, real windows.",
+        "torsions), rebuilt-atom clashes under --nodebump (also through "
+        "the pKa route), real windows and the spatial neighbourhood of every "
+        "residue of the bundled structures (hoods).",
         "Lattice geometry; bond graph = union of residue template and "
         "patches parsed by the harness.",
         "stateless bounded-exhaustive exploration with call-level monitors",
@@ -123,7 +128,8 @@ CHECKS = {
         "the residue must carry the formal charge of the state it ended in; "
         "total charge is non-increasing along pH chains (heptapeptide with "
         "all seven groups); pairs of same-type residues whose pKa values "
-        "straddle the pH; acids with --noopt / asymmetric carboxylates; "
+        "straddle the pH (also told apart by insertion code only); acids "
+        "with --noopt / asymmetric carboxylates; "
         "thorough: real PROPKA on bundled proteins.",
         "Support = resolver has every atom of the target state's topology "
         "with integral charge; protonation read from written atom names.",
